@@ -39,7 +39,33 @@ def models():
     from fv.props.c12 import gentle_def
     out.append(gentle_def(1, 1, 1, (2, 1), 0))  # bounded pendulum-like dynamics: long histories stay O(1)
     out.append(lin_full())
+    out.append(sing_copies())
+    out.append(chain5())
     return out
+
+
+def chain5():
+    """five-state integrator chain observed by a two-reading and a one-reading sensor (readings far fewer than states): under a
+    diffuse prior each update removes uncertainty in a low-dimensional subspace only"""
+    S, DT, add, mul, C = space.S, space.DT, space.add, space.mul, space.C
+    xs = [S(f"x{i}") for i in range(1, 6)]
+    model = [[f"x{i + 1}", add(xs[i], mul(DT, xs[i + 1]))] for i in range(4)] + [["x5", add(mul(C(7, 8), xs[4]), mul(DT, S("u")))]]
+    sensors = [["sa", [["r1", add(xs[2], xs[4])], ["r2", xs[2]]]], ["sb", [["r", xs[1]]]], ["sc", [["r1", mul(C(2), xs[1])], ["r2", xs[0]]]],
+               ["sd", [["r", xs[2]]]]]
+    # precise sensors: cond(S) ~ 1e14 under the diffuse prior
+    snoise = [["sd", [["r", 1e-2]]], ["sb", [["r", 1e-2]]], ["sa", [["r2", 1e-5], ["r1", 1e-5]]], ["sc", [["r1", 1e-3], ["r2", 1e-3]]]]
+    return space.mkdef("chain5", [f"x{i}" for i in (3, 1, 5, 2, 4)], ["u"], [], model, [], [["u", 0.25]], sensors, snoise)
+
+
+def sing_copies():
+    """three states that are exact multiples of each other after one prediction (rank-1 covariance), a precise sensor on one of
+    them: the update collapses a large prior by many orders of magnitude in a singular direction"""
+    S, add, mul, C = space.S, space.add, space.mul, space.C
+    t = S("T")
+    model = [["T", t], ["b1", mul(C(2), t)], ["b2", mul(C(3), t)]]
+    sensors = [["t", [["r", t]]], ["s", [["r", add(S("b1"), S("b2"))]]]]
+    snoise = [["s", [["r", 0.5]]], ["t", [["r", 1e-3]]]]
+    return space.mkdef("sing-copies", ["b2", "T", "b1"], [], [], model, [], [], sensors, snoise)
 
 
 def lin_full():
@@ -77,14 +103,29 @@ def controls_of(d):
 def cases(tier, seed):
     depth = 4 if tier == "quick" else 5
     for d in models():
+        if d["name"] == "chain5":
+            continue  # five states, four sensors: explored from the diffuse priors and by the long tick patterns below
         for pname, P in p0_menu(len(d["state"])):
             yield {"def": d, "P0": P, "P0name": pname, "depth": depth, "seed": seed}
     # a diffuse prior (2^34 I, the usual way to say "unknown") on the linear models: nothing may be refused
     for d in models():
-        if d["name"] in ("sing-rocket", "sing-dup", "sing-const", "lin-full"):
+        if d["name"] in ("sing-rocket", "sing-dup", "sing-const", "lin-full", "chain5"):
             n_ = len(d["state"])
-            yield {"def": d, "P0": [[2.0 ** 34 if i == j else 0.0 for j in range(n_)] for i in range(n_)], "P0name": "2^34*I",
-                   "depth": depth, "seed": seed, "pbound": 2.0 ** 60}
+            for e_ in ((34, 30) if d["name"] == "chain5" else (34,)):
+                P0_ = [[2.0 ** e_ if i == j else 0.0 for j in range(n_)] for i in range(n_)]
+                yield {"def": d, "P0": P0_, "P0name": f"2^{e_}*I", "depth": depth if d["name"] != "chain5" else 3, "seed": seed, "pbound": 2.0 ** 60}
+                # whole ticks: one prediction followed by EVERY sensor (in declaration order, reversed, rotated), repeated
+                yield {"def": d, "P0": P0_, "P0name": f"2^{e_}*I", "long": 24 if tier == "quick" else 96, "seed": seed, "pbound": 2.0 ** 60,
+                       "ticks": True}
+    # a prior that knows one state far worse than the others (1e6 against 1) on the singular-Jacobian models: the first precise
+    # reading collapses it by six orders of magnitude along an exactly correlated direction
+    for d in models():
+        if d["name"].startswith("sing-"):
+            n_ = len(d["state"])
+            for hot in range(min(n_, 2)):
+                for big in (1e6, 3e5):  # decimal magnitudes on purpose: with powers of two every product here is exact and nothing rounds
+                    yield {"def": d, "P0": [[(big if i == hot else 1.0) if i == j else 0.0 for j in range(n_)] for i in range(n_)],
+                           "P0name": f"mixed-{big:g}@{hot}", "depth": depth, "seed": seed, "pbound": 2.0 ** 60}
     # long histories: EVERY periodic event pattern of period 1 and 2 over the same alphabet, run for many steps
     for d in models():
         for pname, P in p0_menu(len(d["state"])):
@@ -175,6 +216,10 @@ def eval_case(case):
         n = 0
         fails = []
         pats = [[e] for e in evs] + [[a, b] for a in evs for b in evs if a != b]
+        if case.get("ticks"):
+            keys = [k_ for k_, _ in d["sensors"]]
+            orders = [keys, list(reversed(keys))] + [keys[i_:] + keys[:i_] for i_ in range(1, len(keys))]
+            pats = [[["predict", dt_, 0]] + [["update", k_, off_] for k_ in o_] for dt_ in (0.1, 0.05, -0.1) for o_ in orders for off_ in (0.25,)]
         deepest = 0
         for pat in pats:
             s = s0
